@@ -665,6 +665,12 @@ func init() {
 		r.assign(x.t, x.get())
 		return nil
 	})
+	reg("(reflect.Value).SetZero", func(i *interpreter, fr *frame, args []value) value {
+		r := args[0].(rval)
+		r.settable("SetZero")
+		*r.addr = zero(r.t)
+		return nil
+	})
 	reg("(reflect.Value).SetString", func(i *interpreter, fr *frame, args []value) value {
 		r := args[0].(rval)
 		r.settable("SetString")
